@@ -35,6 +35,28 @@ def tweak(rng, row, w, case):
         for fld, v in (('n', rng.choice((0x10000, 0x80000000, 0x100000))), ('m', rng.choice((0x10000, 2, 0x1000, 0x80000000)))):
             if isinstance(f.get(fld), int) and f[fld] <= 14:
                 st[gen.bank_key(f[fld], mode)] = v
+    nm = row.name
+    def getr(fld):
+        v = f.get(fld)
+        return st.get(gen.bank_key(v, mode)) if isinstance(v, int) and v <= 14 else None
+    def setr(fld, val):
+        v = f.get(fld)
+        if isinstance(v, int) and v <= 14:
+            st[gen.bank_key(v, mode)] = val & M32
+    if rng.random() < 0.25 and getr('n') is not None and getr('m') is not None:
+        # accumulators chosen so that the exact result is 0 modulo 2^32 / 2^64 (Z from the truncated result, wrap of the accumulate)
+        n_, m_ = getr('n'), getr('m')
+        sn, sm = (n_ - (1 << 32) if n_ >> 31 else n_), (m_ - (1 << 32) if m_ >> 31 else m_)
+        if nm.startswith('UMLAL') and len({f.get('h'), f.get('l'), f.get('n'), f.get('m')}) == 4:
+            acc_ = (-(n_ * m_)) % (1 << 64)
+            setr('h', acc_ >> 32); setr('l', acc_)
+        elif nm.startswith(('SMLAL_', 'SMLALD', 'SMLSLD')) and len({f.get('h'), f.get('l'), f.get('n'), f.get('m')}) == 4:
+            acc_ = (-(sn * sm)) % (1 << 64)
+            setr('h', acc_ >> 32); setr('l', acc_)
+        elif nm.startswith(('MLA_', 'SMLAD', 'SMMLA')) and f.get('a') not in (f.get('n'), f.get('m')):
+            setr('a', -(sn * sm))
+        elif nm.startswith('MLS_') and f.get('a') not in (f.get('n'), f.get('m')):
+            setr('a', sn * sm)
 
 
 def classify(res, case):
